@@ -1,7 +1,7 @@
 """C18 Admin instrumentation: gated by credentials, invisible to the application."""
 from socketio import packet
 
-from vf import worlds
+from vf import worlds, miniloop
 from vf.tape import Fail, notrace
 
 PROPERTY = 'C18'
@@ -46,7 +46,14 @@ def h_gate(t, part):
         class Check:
             async def __call__(self, a):
                 return decide(a)
-        auth = Check() if t.choice(2) else (lambda a, c=Check(): c(a))
+        kind = t.choice(3)
+        if kind == 0:
+            auth = Check()
+        elif kind == 1:
+            auth = (lambda a, c=Check(): c(a))
+        else:
+            # ... or a plain function returning a task / future (e.g. loop.run_in_executor(...))
+            auth = (lambda a, c=Check(): miniloop.create_task(c(a)))
     elif conf == 'partial-predicate':
         # a predicate as an application writes it: it raises TypeError / KeyError on payloads of an unexpected shape
         def auth(a):
